@@ -123,6 +123,7 @@ func buildHistory(p *drive.Program, pc PrimCfg, rc ReplCfg) (*history, error) {
 		return nil, fmt.Errorf("open primary engine: %v", mm)
 	}
 	h.run = r
+	r.NoQuiesce = true // the log is what matters here; the background flush of the primary may run freely
 	w := r.Eng.GetWAL()
 	if w == nil {
 		h.close()
